@@ -23,6 +23,7 @@ import (
 	"testing"
 	"time"
 
+	"github.com/mattn/anko/ast"
 	"github.com/mattn/anko/env"
 	"github.com/mattn/anko/parser"
 	"github.com/mattn/anko/vm"
@@ -159,17 +160,29 @@ var floatPool = []float64{0, math.Copysign(0, -1), 0.5, 1, 1.5, -1, 2, 2.7, 3, -
 
 var strPool = []string{"", "a", "abc", "k", "1", "2", "-1", "1.5", "0", "true", "false", "x y", "héllo", "0x10", "v0", "1e3", "b"}
 
+// pick draws an element without rapid's bias towards the head of the list
+// (the draw is hashed), so that every template / value / hop gets its share.
+func pick[T any](t *rapid.T, label string, xs []T) T {
+	u := rapid.Uint64().Draw(t, label)
+	u ^= u >> 30
+	u *= 0xBF58476D1CE4E5B9
+	u ^= u >> 27
+	u *= 0x94D049BB133111EB
+	u ^= u >> 31
+	return xs[u%uint64(len(xs))]
+}
+
 func genScalar(t *rapid.T, k string) Val {
 	switch k {
 	case "int":
 		if rapid.IntRange(0, 9).Draw(t, "ismall") < 6 {
 			return Val{K: "int", I: rapid.Int64Range(-2, 6).Draw(t, "i")}
 		}
-		return Val{K: "int", I: rapid.SampledFrom(intPool).Draw(t, "ipool")}
+		return Val{K: "int", I: pick(t, "ipool", intPool)}
 	case "float":
-		return Val{K: "float", FB: math.Float64bits(rapid.SampledFrom(floatPool).Draw(t, "fpool"))}
+		return Val{K: "float", FB: math.Float64bits(pick(t, "fpool", floatPool))}
 	case "str":
-		return Val{K: "str", S: rapid.SampledFrom(strPool).Draw(t, "spool")}
+		return Val{K: "str", S: pick(t, "spool", strPool)}
 	}
 	return Val{K: k}
 }
@@ -178,9 +191,9 @@ func genScalar(t *rapid.T, k string) Val {
 func genVal(t *rapid.T, pref string) Val {
 	cat := pref
 	if pref == "any" || rapid.IntRange(0, 99).Draw(t, "natural") >= 65 {
-		cat = rapid.SampledFrom(allKinds).Draw(t, "cat")
+		cat = pick(t, "cat", allKinds)
 	}
-	k := rapid.SampledFrom(kindsByCat[cat]).Draw(t, "kind")
+	k := pick(t, "kind", kindsByCat[cat])
 	if _, ok := compoundByName[k]; ok {
 		return Val{K: k}
 	}
@@ -299,7 +312,7 @@ func effIface(chain []string) bool {
 // generate the shape anyway (e.g. after the defect was repaired).
 var noUnwrapPos = map[string][]int{
 	"if": {0}, "forcond": {0}, "ternary": {0}, "in": {0}, "switch": {0, 1},
-	"makeslice": {0}, "makechan": {0}, "slice": {1, 2}, "index": {1},
+	"makeslice": {0}, "makechan": {0}, "slice": {1, 2}, "index": {1}, "letmapitem": {1},
 }
 
 func knownPtrShape(c Case, i int) bool {
@@ -323,7 +336,7 @@ func genChain(t *rapid.T, v Val, force bool) []string {
 	n := rapid.IntRange(1, 3).Draw(t, "chainlen")
 	ch := make([]string, 0, n)
 	for i := 0; i < n; i++ {
-		hp := rapid.SampledFrom(hopNames).Draw(t, "hop")
+		hp := pick(t, "hop", hopNames)
 		if hp == "sfield_t" && v.fieldType() == "" {
 			hp = "sfield_i"
 		}
@@ -440,10 +453,10 @@ func fixSlots(c *Case) {
 }
 
 func genCase(t *rapid.T) Case {
-	tp := templateByName[rapid.SampledFrom(templateDraw).Draw(t, "template")]
+	tp := templateByName[pick(t, "template", templateDraw)]
 	c := Case{T: tp.name}
 	if len(tp.ops) > 0 {
-		c.Op = rapid.SampledFrom(tp.ops).Draw(t, "op")
+		c.Op = pick(t, "op", tp.ops)
 	}
 	prefs := tp.prefs
 	switch c.T {
@@ -473,7 +486,7 @@ func genCase(t *rapid.T) Case {
 	case "call", "defer", "go":
 		c.N = rapid.IntRange(0, 2).Draw(t, "nargs")
 	case "member", "setmember":
-		c.Name = rapid.SampledFrom(memberNames).Draw(t, "member")
+		c.Name = pick(t, "member", memberNames)
 	}
 	c.Slots = make([]Slot, len(prefs))
 	for i, p := range prefs {
@@ -493,8 +506,13 @@ func genCase(t *rapid.T) Case {
 		for i := range c.Slots {
 			if knownPtrShape(c, i) {
 				// excluded by construction: same template and chain, scalar operand
-				c.Slots[i].V = genScalar(t, rapid.SampledFrom(scalarKinds).Draw(t, "subst"))
+				c.Slots[i].V = genScalar(t, pick(t, "subst", scalarKinds))
 				c.Subst = "ptr-through-interface"
+				for j, hp := range c.Slots[i].Chain {
+					if hp == "sfield_t" && c.Slots[i].V.fieldType() == "" {
+						c.Slots[i].Chain[j] = "sfield_i"
+					}
+				}
 			}
 		}
 	}
@@ -685,8 +703,9 @@ func body(c Case, e []string) string {
 		return "defer " + e[0] + "(" + args(c.N) + ")\nr = 1"
 	case "go":
 		s := "go " + e[0] + "(" + args(c.N) + ")"
-		if c.Slots[0].V.K == "fnmut" && c.N == 0 {
-			// join: the function signals on hdone
+		if c.Slots[0].V.K == "fnmut" {
+			// join: the function signals on hdone (a function without parameters
+			// ignores surplus arguments, so it runs for every N)
 			s += "\n<-hdone"
 		}
 		return s
@@ -737,12 +756,13 @@ func newEnv() *env.Env {
 }
 
 type outcome struct {
-	err     error
-	panicV  string // non-empty: a Go panic escaped
-	timeout bool
-	res     string // type-tagged rendering of the result
-	typ     string // dynamic type of the result
-	state   string // final content of the prelude variables
+	parseErr error // the generated program did not parse: harness defect
+	err      error
+	panicV   string // non-empty: a Go panic escaped
+	timeout  bool
+	res      string // type-tagged rendering of the result
+	typ      string // dynamic type of the result
+	state    string // final content of the prelude variables
 }
 
 // render is ank.Describe plus: channels are drained (content, closed flag,
@@ -799,11 +819,27 @@ func typeOf(v interface{}) string {
 
 const runTimeout = 10 * time.Second
 
+// exec runs a parsed program in non-debug mode, converting an escaping panic
+// into *ank.HostPanic (as ank.ExecCtx does for source text).
+func exec(ctx context.Context, e *env.Env, stmt ast.Stmt) (v interface{}, err error) {
+	defer func() {
+		if r := recover(); r != nil {
+			v = nil
+			err = &ank.HostPanic{Value: r}
+		}
+	}()
+	return vm.RunContext(ctx, e, nil, stmt)
+}
+
 func run(c Case, src string) outcome {
+	stmt, perr := parser.ParseSrc(src)
+	if perr != nil {
+		return outcome{parseErr: perr}
+	}
 	e := newEnv()
 	ctx, cancel := context.WithTimeout(context.Background(), runTimeout)
 	defer cancel()
-	v, err := ank.ExecCtx(ctx, e, src)
+	v, err := exec(ctx, e, stmt)
 	var out outcome
 	if hp, ok := ank.IsHostPanic(err); ok {
 		out.panicV = ank.NormPanic(hp.Value)
@@ -889,15 +925,6 @@ func oracle(c Case, o *h.Obs) *h.Fail {
 	chSrc := build(c, mask(n, func(int) bool { return true }))
 	o.Key = chSrc
 	o.Note = c.tname() + " :: " + chSrc[len(prelude):]
-	for _, src := range []string{baseSrc, chSrc} {
-		if _, err := parser.ParseSrc(src); err != nil {
-			if ctxRef != nil {
-				ctxRef.Incomplete("generated program does not parse (%v):\n%s", err, src)
-			}
-			o.Excluded = "HARNESS_parse_error"
-			return nil
-		}
-	}
 	tn := c.tname()
 	o.Class("tmpl:" + c.T)
 	maxLen := 0
@@ -923,6 +950,17 @@ func oracle(c Case, o *h.Obs) *h.Fail {
 
 	b := run(c, baseSrc)
 	x := run(c, chSrc)
+	if b.parseErr != nil || x.parseErr != nil {
+		perr, src := b.parseErr, baseSrc
+		if perr == nil {
+			perr, src = x.parseErr, chSrc
+		}
+		if ctxRef != nil {
+			ctxRef.Incomplete("generated program does not parse (%v):\n%s", perr, src)
+		}
+		o.Excluded = "HARNESS_parse_error"
+		return nil
+	}
 	if b.timeout || x.timeout {
 		o.Excluded = "timeout_safety_net"
 		return nil
@@ -984,7 +1022,7 @@ func differingHop(c Case, b outcome, clause string) string {
 		x := run(c, src)
 		got := ""
 		switch {
-		case x.timeout:
+		case x.timeout, x.parseErr != nil:
 		case x.panicV != "" || b.panicV != "":
 			if (x.panicV != "") != (b.panicV != "") {
 				got = "panic"
